@@ -6,7 +6,16 @@ import "strings"
 // stage 0: path and method symbolic, headers absent.
 // stage 1: header stage: one concrete sample path per route; method and headers symbolic.
 // stage 2: everything symbolic (path cap reduced).
+// vDeep: stages >= 10 are the same stages with the thorough bounds (path 16 bytes, 4 segments).
+func vDeep(stage, pathCap, maxSeg int) (int, int, int) {
+	if stage >= 10 {
+		return stage - 10, pathCap + 8, maxSeg + 2
+	}
+	return stage, pathCap, maxSeg
+}
+
 func vSymRequest(stage, pathCap, maxSeg int, samples []string) vReq {
+	stage, pathCap, maxSeg = vDeep(stage, pathCap, maxSeg)
 	q := vReq{}
 	q.method = nondetString("method", 7)
 	if stage == 1 {
@@ -33,7 +42,7 @@ func H_C01(tbl, router, stage int) {
 	h := vNewH(t)
 	c := h.build(vRouter(router))
 	pathCap := 12
-	if stage >= 2 {
+	if stage%10 >= 2 {
 		pathCap = 8
 	}
 	q := vSymRequest(stage, pathCap, 3, vSamplePaths(h.flat))
